@@ -88,22 +88,13 @@ Proof.
     assert (Hs1 : drop w rest = drop (i + w) s) by (subst rest; apply st_drop_drop).
     rewrite Hs1.
     (* the three cases are split on the MODEL's tests; the source's tests follow by lia *)
-    destruct (N.eqb_spec r 32) as [E32|E32].
-    + replace (Z.eqb (Z.of_N r) 32) with true by lia. cbv iota.
-      destruct (IH (i + w)%nat 0%Z (out ++ tmpl_html_escape (take w rest)) (Z.of_nat w) fuel) as (c' & w' & H'); try lia.
-      exists c', w'. rewrite H'. rewrite <- app_assoc. reflexivity.
-    + replace (Z.eqb (Z.of_N r) 32) with false by lia. cbv iota.
-      destruct (Z.geb_spec c maxc) as [Hge|Hlt].
-      * replace (Z.geb c maxc) with true by lia. cbv iota.
-        match goal with
-        | |- context [src_soyhtml_directiveInsertWordBreaks_loop1 fuel _ _ _ _ _ _ ?c1 ?o1 _ _] =>
-            destruct (IH (i + w)%nat c1 o1 (Z.of_nat w) fuel) as (c' & w' & H'); try lia
-        end.
-        exists c', w'. rewrite H'. rewrite <- !app_assoc. reflexivity.
-      * replace (Z.geb c maxc) with false by lia. cbv iota.
-        rewrite (st_wrap64 (c + 1)) by (unfold go_len in *; lia).
-        destruct (IH (i + w)%nat (c + 1)%Z (out ++ tmpl_html_escape (take w rest)) (Z.of_nat w) fuel) as (c' & w' & H'); try lia.
-        exists c', w'. rewrite H'. rewrite <- app_assoc. reflexivity.
+    destruct (N.eqb_spec r 32) as [E32|E32]; [|destruct (Z.geb_spec c maxc) as [Hge|Hlt]];
+      st_decide_ifs; cbv beta iota zeta; rewrite ?(st_wrap64 (c + 1)) by (unfold go_len in *; lia);
+      match goal with
+      | |- context [src_soyhtml_directiveInsertWordBreaks_loop1 fuel _ _ _ _ _ _ ?c1 ?o1 _ _] =>
+          destruct (IH (i + w)%nat c1 o1 (Z.of_nat w) fuel) as (c' & w' & H'); try lia
+      end;
+      exists c', w'; rewrite H'; rewrite <- !app_assoc; reflexivity.
 Qed.
 
 (* |insertWordBreaks:n on a value whose String() is s (whatever further arguments follow the first) *)
